@@ -535,7 +535,28 @@ def refusal_case(ctx, index, rng: random.Random):
             elif kind == "unknown_backend":
                 h1.plot("bar", backend="no_such_backend")
             elif kind == "unknown_kind":
-                h1.plot("no_such_kind", backend=rng.choice(["matplotlib", "plotly", "ascii"]))
+                bname = rng.choice(["matplotlib", "plotly", "ascii"])
+                name = "no_such_kind"
+                if rng.random() < 0.7:
+                    # a name that is not a plot type of the backend, although something of that name lives in its module
+                    import physt.plotting as _pp
+
+                    mod = _pp.backends[bname]
+                    others = [n_ for n_ in dir(mod) if not n_.startswith("_") and n_ not in getattr(mod, "types", ()) and callable(getattr(mod, n_, None))]
+                    if others:
+                        name = rng.choice(others)
+                kind = f"unknown_kind:{bname}.{name}"
+                how = rng.randrange(3)
+                with contextlib.redirect_stdout(io.StringIO()):
+                    if how == 0:
+                        h1.plot(name, backend=bname)
+                    elif how == 1:
+                        import physt.plotting as _pp
+
+                        _pp.plot(h1, name, backend=bname)
+                    else:
+                        _pp_set = None
+                        getattr(h1.plot, name)(backend=bname)
             elif kind == "2d_as_hbar":
                 with contextlib.redirect_stdout(io.StringIO()):
                     h2.plot("hbar", backend="ascii")
@@ -551,7 +572,7 @@ def refusal_case(ctx, index, rng: random.Random):
         plt.close("all")
     if not raised and kind != "2d_as_hbar":
         rec.fail(monitor="C20.artists", op=f"refusal/{kind}", symptom="wrong dimension / unknown backend or kind was not refused", diff=["not_refused"], detail={"kind": kind})
-    rec.case(["refusal", kind], True, cls=f"refusal/{kind}")
+    rec.case(["refusal", kind], True, cls=f"refusal/{kind.split(':')[0]}")
 
 
 def ticks_case(ctx, index, rng: random.Random):
